@@ -1767,6 +1767,17 @@ class SpaceUpdater(SharedSpaceOperations):
 
         self._check_member_conflict(node)
 
+        if refs:
+            # The initial references are members like those assigned later
+            inherited = set()
+            for sname in self._graph.get_mro(node)[1:]:
+                inherited.update(self._graph.to_space(sname).cells.keys())
+            for refname in refs:
+                if not is_valid_name(refname):
+                    raise ValueError("Invalid name '%s'." % refname)
+                elif refname in inherited:
+                    raise NameError("name conflict: %s" % [refname])
+
         if container is None:
             container = parent._named_spaces
 
